@@ -837,6 +837,19 @@ def run(ctx):
         if strip_generics(t["fn"].get("path", "")).endswith("slice::get") or strip_generics(t["fn"].get("path", "")).endswith("[T]>::get"):
             a = nev.call_args(bb)
             if len(a) == 2 and a[0] == ("param", nrr.path, 1) and isinstance(a[1], tuple) and a[1][0] == "agg" and "Range" in str(a[1][1]):
+                # (as above: a checked slice that is only split further - `buf.get(8..).and_then(|rest| rest.split_first_chunk::<4>())` - is not consumed itself)
+                me = nev.call_term(bb)
+                SPLITS = ("split_first_chunk", "split_at", "split_at_checked", "split_first", "split_last_chunk")
+                users = [(callee_name(t2["fn"].get("path", "")), t2) for b2, t2 in nrr.calls() if b2 != bb and any(values.strip_payload(x) == me or x == me for x in nev.call_args(b2))]
+                def splits_only(nm, t2):
+                    if nm in SPLITS:
+                        return True
+                    if nm in ("and_then", "map"):
+                        cl = [c[3:] if c.startswith("fn:") else c for c in (t2.get("closures") or [])]
+                        return bool(cl) and all(c in P.fns and any(callee_name(t3["fn"].get("path", "")) in SPLITS for _b3, t3 in P.fns[c].calls()) or callee_name(c) in SPLITS for c in cl)
+                    return False
+                if users and all(splits_only(nm, t2) for nm, t2 in users):
+                    continue
                 slices.append((str(a[1][1]).split("::")[-1], tuple(x[1] if x[0] == "int" else None for x in a[1][2])))
     from lib import le_u32_source
     for bb, t in nrr.calls():
